@@ -627,3 +627,98 @@ def run_simplex_scenario(spec):
     out["tape_len"] = len(tape.lines)
     out["raised"] = raised
     return out
+
+
+# ----------------------------------------------------------------------------- Bayesian / TPE / Forest (GFO.Model.SmboBackend)
+
+SMBO3 = ("BayesianOptimizer", "TreeStructuredParzenEstimators", "ForestOptimizer")
+
+
+def run_smbo_scenario(spec):
+    assert spec["opt"] in SMBO3
+    tape = Tape()
+    holder = {"quiet": False}
+
+    def on_built(opt):
+        holder["init_l"] = [[int(x) for x in p] for p in opt.init.init_positions_l]
+        holder["warm"] = [([int(x) for x in p], y) for p, y in zip(opt.X_sample, opt.Y_sample)]
+        orig_nic = opt.conv.not_in_constraint
+
+        def not_in_constraint(pos):
+            ok = orig_nic(pos)
+            if holder["quiet"]:
+                holder["grid"].append(([int(x) for x in np.asarray(pos).ravel()], bool(ok)))
+            else:
+                tape.add("f", _ipos(pos) + (" 1" if ok else " 0"))
+            return ok
+        opt.conv.not_in_constraint = not_in_constraint
+        orig_all = opt._all_possible_pos
+
+        def all_possible_pos():
+            holder["quiet"], holder["grid"] = True, []
+            try:
+                out_ = orig_all()
+            finally:
+                holder["quiet"] = False
+            g = holder["grid"]
+            tape.add("I", " ".join([str(len(g))] + [" ".join(str(x) for x in p) for p, _ in g]))
+            tape.add("h", " ".join([str(len(g))] + ["1" if ok else "0" for _, ok in g]))
+            return out_
+        opt._all_possible_pos = all_possible_pos
+        orig_tr = opt._training
+
+        def training():
+            try:
+                r_ = orig_tr()
+            except ValueError:
+                tape.add("i", "0")
+                raise
+            tape.add("i", "1")
+            return r_
+        opt._training = training
+        orig_samp = opt._sampling
+
+        def sampling(all_pos_comb):
+            out_ = orig_samp(all_pos_comb)
+            if out_ is all_pos_comb:
+                tape.add("g", "0")
+            else:
+                index = {tuple(int(x) for x in row): i for i, row in enumerate(np.asarray(all_pos_comb))}
+                idx = [index[tuple(int(x) for x in row)] for row in np.asarray(out_)]
+                tape.add("g", " ".join([str(len(idx))] + [str(i) for i in idx]))
+            return out_
+        opt._sampling = sampling
+        orig_ei = opt._expected_improvement
+
+        def expected_improvement():
+            out_ = orig_ei()
+            flat = np.asarray(out_, dtype=float).ravel()
+            tape.add("v", " ".join([str(len(flat))] + [tok_f(x) for x in flat]))
+            perm = list(np.asarray(out_).argsort()[::-1])
+            tape.add("o", " ".join([str(len(perm))] + [str(int(i)) for i in perm]))
+            return out_
+        opt._expected_improvement = expected_improvement
+    with module_patches(tape):
+        out = scen.run_scenario(spec, with_model=False, on_built=on_built)
+    real = out["real"]
+    opt, rec, records, space = real["opt"], real["rec"], real["records"], real["space"]
+    il, warm = holder["init_l"], holder["warm"]
+    bnew = (f"bnew {opt.init.n_inits} {1 if opt.replacement else 0} {1 if spec['opt'] == 'ForestOptimizer' else 0} "
+            f"{len(il)} " + " ".join(" ".join(str(x) for x in p) for p in il) + f" {len(warm)} " +
+            " ".join(" ".join(str(x) for x in p) + " " + tok_f(y) for p, y in warm))
+    bnew = " ".join(bnew.split())
+    f = real["f"]
+    lines, expect = drv.encode_history(space, opt.init.n_inits, opt, rec, records, (lambda k, para: f(para)),
+                                       local=dict(lnew=bnew, tape=tape.lines))
+    raised = any(r["exc"] is not None for r in records)
+    if not raised:
+        lines.append("bstate")
+        expect.append("tracker " + tracker_core(opt))
+        ncands = len(opt.all_pos_comb) if hasattr(opt, "all_pos_comb") else 0
+        expect.append(f"smbo X={C.show_list([C.show_pos(p) for p in opt.X_sample], str)} Y={C.show_list([tok_f(y) for y in opt.Y_sample], str)} "
+                      f"ncands={ncands} tapeLeft=0")
+    out.update(lines=lines, expect=expect)
+    out["tape_kinds"] = dict(tape.kinds)
+    out["tape_len"] = len(tape.lines)
+    out["raised"] = raised
+    return out
